@@ -18,6 +18,8 @@ PROPS = {
     'N2@77': dict(T=77.355, M=28.0134, rho=0.8064, gamma=8.876),
     'Ar@87': dict(T=87.3, M=39.948, rho=1.3954, gamma=12.55),
     'synthetic': dict(T=120.0, M=50.0, rho=1.1, gamma=20.0),
+    # a fluid close to its critical point: surface tension below 1 mN/m (the value is still in mN/m)
+    'near-critical': dict(T=300.0, M=44.0, rho=0.68, gamma=0.45),
 }
 
 
@@ -34,6 +36,8 @@ def grids(scale):
         'lin30': numpy.linspace(0.11 * scale, 0.985, 30),
         'log20': 1 - numpy.geomspace(0.85, 0.012 * scale, 20),
         'to-saturation': numpy.concatenate([numpy.linspace(0.15, 0.95, 9), [0.99, 0.995, 0.9985, 0.9995]]),
+        # a high-resolution scan across a condensation step: distinct pressures 4e-5 apart
+        'high-resolution': numpy.concatenate([numpy.linspace(0.2, 0.58, 6), 0.6 + 4e-5 * numpy.arange(8), numpy.linspace(0.65, 0.95, 5)]),
     }
 
 
@@ -262,7 +266,7 @@ def run(ctx):
         ctx.violate(r['viol'])
         ctx.track('widths_vs_kelvin', r['worst'], 1e-6)
     check_entry(ctx)
-    ctx.cov['domain_sizes'] = {'configurations': len(jobs), 'profiles': 6, 'grids': 4, 'property_sets': 3}
+    ctx.cov['domain_sizes'] = {'configurations': len(jobs), 'profiles': 8, 'grids': 5, 'property_sets': 4}
     ctx.cov['rule'] = ('3 methods x allowed pore geometries x 3 meniscus geometries x 4 thickness models x Kelvin/Kelvin-KJS x 4 pressure grids (one reaching p/p0 = 0.9995) x '
                        '3 adsorbate property sets x 6 volume profiles through the raw functions; psd_mesoporous on isotherms for 5 method/geometry pairs x 4 limit settings x both '
                        'branches x 3 adsorbates, plus analyses before/after the adsorbate is re-defined.')
